@@ -60,6 +60,7 @@ def sorted_afterwards(f, local):
 
 
 def run(F, res, tier):
+    every_part_of_a_change_is_applied(F, res)
     reviewed = R.load_reviewed().get("C11", {})
     # ---- H1
     sites = []
@@ -573,3 +574,32 @@ def handwritten_equality_is_complete(F, res, eqs, rule="H7"):
                how="fields never read: %s; fields compared only through a narrowing view: %s" % (unread, {x: sorted(FL.short(c) for c in views[x]) for x in narrow})
                if unread or narrow else "%d fields, all read and none only through keys()/len()/.." % len(fields))
     res.floor("hand-written PartialEq impls among the query value types", n, 1)
+
+
+def every_part_of_a_change_is_applied(F, res, rule="H9"):
+    """H9: a Change carries up to three things - a package graph, a partition into source roots, file texts. Change::apply hands
+    each to its salsa setter whenever it is there: the decisions above a setter call are presence tests (`if let Some(..)`, a
+    loop's `next()`) and nothing else. An early return for an "empty" change (whose emptiness test forgets the package graph),
+    or any other condition in front of a setter, drops an input the rest of the server believes was applied; every later
+    answer is computed on the old input while a fresh analysis uses the new one."""
+    from lib import inline as IL
+    ap0 = F.fn("ide::base::Change::apply")
+    ap = IL.inlined(F, ap0, want=lambda p: p.startswith("ide::base::Change::") and "{closure" not in p, depth=3)
+    d = FL.Defs(ap)
+    setters = [(b, t) for b, t in ap.calls() if (callee(t) or callee_def(t) or "").rsplit("::", 1)[-1].startswith("set_") and
+               "SourceDatabase" in (callee(t) or callee_def(t) or "")]
+    res.floor("salsa setters called by Change::apply", len(setters), 5)
+    for b, t in setters:
+        name = (callee(t) or callee_def(t) or "").rsplit("::", 1)[-1]
+        gs = FL.gates(F, ap, [b], d)
+        def loop_exit(g, b=b):
+            # the end of an inner loop (its `next()` answered None) in front of a setter of the enclosing loop: the deciding block
+            # lies in a loop that the setter is not part of
+            if g.get("allowed") != ["None"]:
+                return False
+            return any(g.get("bb") in lp and b not in lp for lp in (ap.natural_loop(tl, hd) for tl, hd in ap.back_edges()))
+        bad = [(FL.short(g.get("callee") or ""), g.get("allowed")) for g in gs if g.get("allowed") not in (["Some"], ["Continue"], ["Ok"]) and not loop_exit(g)]
+        n_same = [bb for bb, tt in setters if (callee(tt) or callee_def(tt) or "").rsplit("::", 1)[-1] == name].index(b)
+        res.ob(rule, "apply/%s/%d" % (name, n_same), "Change::apply reaches %s whenever the part of the change it is for is present (only presence tests "
+               "decide)" % name, not bad, where=ap0.loc(t["ln"]), how="decisions above the call: %s; other than presence tests: %s" % (
+                   [(FL.short(g.get("callee") or ""), g.get("allowed")) for g in gs], bad))
